@@ -11,9 +11,10 @@ This module contains classes and functions to remove component tensors.
 from collections import defaultdict
 
 from ufl.algorithms.map_integrands import map_integrand_dags
-from ufl.classes import ComponentTensor, Index, MultiIndex, Zero
+from ufl.classes import ComponentTensor, Index, IndexSum, MultiIndex, Zero
 from ufl.corealg.map_dag import map_expr_dag
 from ufl.corealg.multifunction import MultiFunction
+from ufl.corealg.traversal import unique_pre_traversal
 from ufl.index_combination_utils import unique_sorted_indices
 
 
@@ -74,14 +75,33 @@ class IndexRemover(MultiFunction):
         # caches for reuse in the dispatched transformers
         self.vcaches = defaultdict(dict)
         self.rcaches = defaultdict(dict)
+        self._bound = {}
 
     expr = MultiFunction.reuse_if_untouched
+
+    def _bound_indices(self, expr):
+        """Return the indices bound by an IndexSum or a ComponentTensor inside expr."""
+        bound = self._bound.get(expr)
+        if bound is None:
+            bound = set()
+            for node in unique_pre_traversal(expr):
+                if isinstance(node, IndexSum | ComponentTensor):
+                    bound.update(node.ufl_operands[1].indices())
+            self._bound[expr] = bound
+        return bound
 
     def indexed(self, o, o1, i1):
         """Simplify Indexed."""
         if isinstance(o1, ComponentTensor):
             # Simplify Indexed ComponentTensor
             o2, i2 = o1.ufl_operands
+            bound = self._bound_indices(o2)
+            if any(i in bound for i in i2) or any(i in bound for i in i1):
+                # Substituting i2 -> i1 inside o2 would rewrite or be captured
+                # by an index bound inside o2: keep the component tensor.
+                if o.ufl_operands[0] is o1:
+                    return o
+                return o._ufl_expr_reconstruct_(o1, i1)
             # Replace outer indices
             rkey = (i2, i1)
             rule = self.rules.get(rkey)
